@@ -110,7 +110,18 @@ function runJob (job) {
           const saved = Error.prepareStackTrace
           let structured = null
           const user = mode === 'handler'
-            ? (err, cs) => { structured = cs.map((c) => ({ path: c.getFileName(), line: c.getLineNumber(), col: c.getColumnNumber() })); return 'handled' }
+            ? (err, cs) => {
+                structured = cs.map((c) => {
+                  const f = { path: c.getFileName(), line: c.getLineNumber(), col: c.getColumnNumber() }
+                  // a frame of eval'd code has no file name of its own: its position in the file is its eval origin
+                  if (typeof f.path !== 'string' && c.isEval && c.isEval()) {
+                    const o = frameOfLine('at ' + String(c.getEvalOrigin()))
+                    if (o.eval) return { path: o.path, line: o.line, col: o.col, eval: true }
+                  }
+                  return f
+                })
+                return 'handled'
+              }
             : undefined
           let got = []
           try {
